@@ -386,6 +386,16 @@ def check_property(prop, tier, seed):
                 open(rp, "w").write("CMD: " + " ".join(r.cmd) + f"\nexit: signal {-r.rc}\n\n" + text[-20000:])
                 violations.append({"signature": f"crash:{leg['name']}:signal={-r.rc}", "replay": rp, "text": f"process killed by signal {-r.rc} while executing contract-respecting histories"})
                 continue
+            if s is None and (r.rc is None or r.rc not in (0, 1, 3)):
+                # the shard died (signal, abort) before it could write its summary: violations of this property
+                # that it had already recorded (announced at once, unshrunk witness on disk) still count
+                early = [l for l in text.splitlines() if l.startswith(f"EARLY-VIOLATION property={prop} ")]
+                for l in early[:3]:
+                    m = re.match(r"EARLY-VIOLATION property=\S+ replay=(\S+) sig=(.*)$", l)
+                    if m:
+                        violations.append({"signature": m.group(2), "replay": m.group(1), "text": "recorded before the process died (rc=%s); unshrunk history in the witness file" % r.rc})
+                if early:
+                    continue
             if s is not None and s.get("harness_problems"):
                 inconclusive.append(f"{r.name}: {s['harness_problems'][0]}")
             if r.rc not in (0, 1, 3) or s is None:
